@@ -75,7 +75,7 @@ func init() {
 		id   string
 		prop int
 		mw   int
-	}{{"C04", 4, 0}, {"C05", 5, 0}, {"C06", 6, 0}, {"C07", 7, 0}, {"C13", 13, 2}}
+	}{{"C04", 4, 1}, {"C05", 5, 1}, {"C06", 6, 0}, {"C07", 7, 0}, {"C13", 13, 2}}
 	for _, lp := range l1props {
 		lp := lp
 		reg(&PropSpec{
@@ -93,6 +93,10 @@ func init() {
 				if lp.prop == 7 {
 					hs = append(hs, HarnessSpec{Name: "poison-caller-waits-among-concurrent-senders", Pkg: "actor", Func: "ZZ_L2", Preempt: 2,
 						Params: pm("prop", 7, "T", 2, "M", 2, "crash", 0), Witnesses: []string{"poison-accepted"}, Deadline: 40 * time.Minute})
+				}
+				if lp.prop == 4 {
+					hs = append(hs, HarnessSpec{Name: "messages-queued-while-shutting-down", Pkg: "actor", Func: "ZZ_C08", Preempt: 1,
+						Params: pm("D", 1, "F", 2, "mode", 3), Deadline: 40 * time.Minute, ReplayAttempts: 8})
 				}
 				if lp.prop == 4 {
 					hs = append(hs, HarnessSpec{Name: "spawn-races-with-senders", Pkg: "actor", Func: "ZZ_L2", Preempt: 2,
@@ -131,13 +135,13 @@ func init() {
 	reg(&PropSpec{
 		ID: "C18",
 		Harnesses: func(tier string) []HarnessSpec {
-			return []HarnessSpec{{Name: "snapshots", Pkg: "cluster", Func: "ZZ_C18_Snapshots", Params: pm("U", tierSel(tier, 3, 4), "N", tierSel(tier, 3, 4)),
-				Witnesses: []string{"duplicate-entry", "leave"}, Deadline: 30 * time.Minute}}
+			return []HarnessSpec{{Name: "snapshots", Pkg: "cluster", Func: "ZZ_C18_Snapshots", Params: pm("U", tierSel(tier, 3, 4), "N", tierSel(tier, 3, 4), "MOVE", 1),
+				Witnesses: []string{"duplicate-entry", "leave", "member-listed-under-another-host"}, Deadline: 30 * time.Minute}}
 		},
 		Bounds: func(tier string) string {
 			return fmt.Sprintf("sequences of %d snapshots over a universe of %d members with fixed kind sets; membership of each member in each snapshot and a duplicate entry are symbolic booleans; every snapshot contains the observing node", tierSel(tier, 3, 4), tierSel(tier, 4, 5)-1)
 		},
-		Outside:     []string{"members that change host or kinds between snapshots while keeping their ID", "Members()/HasKind() request plumbing (the agent's state is read directly)", "longer sequences / larger universes", "map iteration order: one order explored"},
+		Outside:     []string{"members that change their kinds between snapshots while keeping their ID (a change of host under the same ID is included: symbolic per entry)", "Members()/HasKind() request plumbing (the agent's state is read directly)", "longer sequences / larger universes", "map iteration order: one order explored"},
 		Assumptions: seqAssume("Agent built by NewAgent on a Cluster value whose engine is a bare engine with a synchronous event sink; snapshots are delivered by calling Agent.Receive"),
 	})
 	reg(&PropSpec{
